@@ -2,6 +2,7 @@
 // M3: complete products (quintics, estimator-regular families); M2: the harness plays the integrand
 // (deviation-bounded DFS over answers) for the structural clauses and against a textbook reference recursion.
 #include "mc/mc.hpp"
+#include "mc/purity.hpp"
 #include "libphysica/Integration.hpp"
 #include <map>
 using namespace libphysica;
@@ -383,6 +384,29 @@ static void adversary(unsigned long long& unit)
 	mc::count("distinct_nontrivial", outcomes.size());
 }
 
+// ---- call histories: result and abscissae of a request do not depend on the requests made before it ------------------------------------
+static void histories(unsigned long long& unit)
+{
+	struct Req { const char* name; std::function<double(double)> f; double a, b, eps; int depth; };
+	std::vector<Req> R = {
+		{"exp on [0,1] eps 1e-10 depth 20", [](double x) { return std::exp(x); }, 0, 1, 1e-10, 20},
+		{"exp on [0,1] eps 1e-3 depth 1", [](double x) { return std::exp(x); }, 0, 1, 1e-3, 1},
+		{"exp on [1,0] eps -1e-6 depth 3", [](double x) { return std::exp(x); }, 1, 0, -1e-6, 3},
+		{"x^5-x on [-1,2] eps 1e2 depth 0", [](double x) { return x * x * x * x * x - x; }, -1, 2, 1e2, 0},
+		{"1/(x+1.5) on [0,25] eps 1e-12 depth 25", [](double x) { return 1 / (x + 1.5); }, 0, 25, 1e-12, 25},
+		{"sqrt|x-1/3| on [0,1] eps 1e-9 depth 12", [](double x) { return std::sqrt(std::fabs(x - 1.0 / 3)); }, 0, 1, 1e-9, 12},
+		{"cos on [1000,1000+1e-6] eps 1e-18 depth 5", [](double x) { return std::cos(x); }, 1000, 1000 + 1e-6, 1e-18, 5},
+		{"equal limits", [](double x) { return x; }, 0.5, 0.5, 1e-6, 10},
+	};
+	std::vector<mc::PureLetter> L;
+	for(auto& r : R)
+		L.push_back({r.name, [r]() { std::string q; long long n = 0; std::function<double(double)> fn = [&](double x) { if(n++ < 40) q += mc::hexd(x) + ","; return r.f(x); }; double v = Integrate(fn, r.a, r.b, r.eps, r.depth); return mc::hexd(v) + "|" + std::to_string(n) + "|" + q; }});
+	L.push_back({"Find_Epsilon(exp,0,1,1e-9)", []() { return mc::hexd(Find_Epsilon([](double x) { return std::exp(x); }, 0, 1, 1e-9)); }});
+	long long t = mc::purity("histories", L, mc::thorough() ? 4 : 3, unit);
+	mc::count("evaluations", t);
+	mc::count("distinct_nontrivial", t);
+}
+
 int main(int argc, char** argv)
 {
 	mc::init(argc, argv);
@@ -392,6 +416,7 @@ int main(int argc, char** argv)
 	unsigned long long unit = 0;
 	adversary(unit);
 	special_structures(unit);
+	histories(unit);
 	regular_families(unit);
 	quintics(unit);
 	return mc::finish();
